@@ -22,8 +22,10 @@ package path
 //@   ensures hashSt[self] == stAbsorb16(old(hashSt[self]), p[0], p[1], p[2], p[3], p[4], p[5], p[6], p[7], p[8], p[9], p[10], p[11], p[12], p[13], p[14], p[15])
 
 //@ iface hash.Hash.Sum
-//@   modifies b[:]
+//@   modifies arr(b)
 //@   ensures len(result) == len(b)+16
+//@   # append semantics: the digest is appended in place when the capacity suffices
+//@   ensures cap(b)-len(b) >= 16 ==> sameArray(result, b)
 //@   ensures forall i int :: 0 <= i && i < 16 ==> result[len(b)+i] == digestByte(hkey(self), hashSt[self], i)
 
 //@ # the documented MAC input block (scion-header.rst, "Hop Field MAC computation")
@@ -43,14 +45,15 @@ package path
 //@ func FullMAC
 //@   props C01 C04 C12
 //@   requires h != nil && (len(buffer) == 16 || len(buffer) < 16)
-//@   modifies buffer[:], hashSt
+//@   modifies arr(buffer), hashSt
 //@   ensures len(result) == 16
+//@   ensures len(buffer) == 16 ==> sameArray(result, buffer)
 //@   ensures forall i int :: 0 <= i && i < 16 ==> result[i] == macByte(hkey(h), info.SegID, info.Timestamp, hf.ExpTime, hf.ConsIngress, hf.ConsEgress, i)
 
 //@ func MAC
 //@   props C01 C04 C12
 //@   requires h != nil && (len(buffer) == 16 || len(buffer) < 16)
-//@   modifies buffer[:], hashSt
+//@   modifies arr(buffer), hashSt
 //@   ensures forall i int :: 0 <= i && i < 6 ==> result[i] == macByte(hkey(h), info.SegID, info.Timestamp, hf.ExpTime, hf.ConsIngress, hf.ConsEgress, i)
 
 //@ # every protected value reaches the MAC input: the documented block is injective in the five values
